@@ -54,8 +54,13 @@ def run(ctx, rep) -> None:
     base = prog.cls("stabilize.handlers.base", "StabilizeHandler")
     for name, obj in (("set_stage_status", "stage"), ("set_task_status", "task"), ("set_workflow_status", "workflow")):
         fn = base.methods[name].node
-        body = [s for s in fn.body if not (isinstance(s, ast.Expr) and isinstance(s.value, ast.Constant))]
-        ok = len(body) == 2 and isinstance(body[0], ast.Expr) and norm(body[0]).startswith(f"validate_transition({obj}.status, new_status") and norm(body[1]) == f"{obj}.status = new_status"
+        body = fn.body
+        val_i = [i for i, s_ in enumerate(body) if isinstance(s_, ast.Expr) and norm(s_).startswith(f"validate_transition({obj}.status, new_status")]
+        asg_i = [i for i, s_ in enumerate(body) if isinstance(s_, ast.Assign) and norm(s_.targets[0]) == f"{obj}.status"]
+        nested_asg = [n for n in ast.walk(fn) if isinstance(n, ast.Assign) and norm(n.targets[0]) == f"{obj}.status" and n not in body]
+        # the validation is an unconditional statement before the only status assignment; nothing in between returns or re-assigns
+        ok = len(val_i) >= 1 and len(asg_i) == 1 and not nested_asg and val_i[0] < asg_i[0] and norm(body[asg_i[0]].value) == "new_status" \
+            and not any(isinstance(x, (ast.Return, ast.Try, ast.If)) for s_ in body[val_i[0]:asg_i[0]] for x in ast.walk(s_))
         rep.check(ok, "C06.R1", f"{name} validates before assigning", "validate_transition(x.status, new_status, ...); x.status = new_status", base.methods[name].file, fn.lineno, disc=name)
 
     # ---- R2 ------------------------------------------------------------------------------------
